@@ -237,8 +237,9 @@ Definition c13_ok (c : ccase) : bool :=
   let vs := cc_variants c in
   (* the decoders delivered the same document *)
   forallb cv_skeleton vs
-  (* every representation compiles, or none does *)
-  && (forallb (fun v => gc_is_ok (cv_class v)) vs || forallb (fun v => negb (gc_is_ok (cv_class v))) vs)
+  (* every representation compiles, or none does - for one host, i.e. one set of known interpreters *)
+  && forallb (fun v => forallb (fun w => negb (list_eqb String.eqb (cv_known v) (cv_known w))
+                                         || Bool.eqb (gc_is_ok (cv_class v)) (gc_is_ok (cv_class w))) vs) vs
   (* no crash *)
   && forallb (fun v => negb (gc_eqb (cv_class v) GcPanic)) vs
   (* compiling again, and compiling what was serialised, succeeds *)
